@@ -175,7 +175,7 @@ func verifC33GenLayout(rng *rand.Rand) (lay verifC33Layout, pool []string, gs ve
 			pool = append(pool, p+"\x00")
 		}
 	}
-	pool = append(pool, "A", "zz")
+	pool = append(pool, "A", "zy")
 	pool = verifC33SortedUnique(pool)
 
 	pickSpan := func() (string, string) {
@@ -995,6 +995,18 @@ func verifC33RunSession(
 	r.Count("entries_visible", int64(len(model.all)))
 
 	poolKey := func() []byte { return []byte(pool[rng.IntN(len(pool))]) }
+	// Bounds end in a byte with the low bit set: in invariants builds the
+	// sstable iterators disable their monotonic-bounds optimisation for bounds
+	// with an even last byte in half of the iterators (chosen by a hash of the
+	// iterator's address), which would make a replay irreproducible. With odd
+	// bounds the optimisation is always on, as in production builds.
+	var boundPool [][]byte
+	for _, k := range pool {
+		if k[len(k)-1]&1 == 1 {
+			boundPool = append(boundPool, []byte(k))
+		}
+	}
+	boundKey := func() []byte { return boundPool[rng.IntN(len(boundPool))] }
 	// Seek targets: mostly at or around an entry that exists at the snapshot
 	// (visible or not within the current bounds), else anywhere in the pool.
 	randKey := func() []byte {
@@ -1008,16 +1020,21 @@ func verifC33RunSession(
 		return poolKey()
 	}
 	randBounds := func() (lo, up []byte) {
-		switch rng.IntN(5) {
-		case 0, 1:
+		x := rng.IntN(5)
+		if len(boundPool) == 0 || x < 2 {
 			return nil, nil
+		}
+		switch x {
 		case 2:
-			return poolKey(), nil
+			return boundKey(), nil
 		case 3:
-			return nil, poolKey()
+			return nil, boundKey()
+		}
+		if len(boundPool) < 2 {
+			return boundKey(), nil
 		}
 		for {
-			lo, up = poolKey(), poolKey()
+			lo, up = boundKey(), boundKey()
 			if c := verifC33Cmp(lo, up); c < 0 {
 				return lo, up
 			} else if c > 0 {
@@ -1066,7 +1083,12 @@ func verifC33RunSession(
 		nv := len(m.vis)
 		nextOK := m.dir != 0 && !m.prefixDone && !(m.dir == +1 && m.pos >= nv)
 		prevOK := m.dir != 0 && m.prefix == nil && !(m.dir == -1 && m.pos < 0)
-		nextPrefixOK := m.dir == +1 && m.prefix == nil && m.cur() != nil
+		// (*Iterator).NextPrefix refuses to run when the upper bound is a
+		// versioned key (nextPrefixNotPermittedByUpperBound: "significant
+		// complications for NextPrefix"), which guarantees succKey <= upper to
+		// the internal iterators; mirror that guard.
+		nextPrefixOK := m.dir == +1 && m.prefix == nil && m.cur() != nil &&
+			(m.upper == nil || testkeys.Comparer.Split(m.upper) == len(m.upper))
 
 		// Choose the op.
 		op := ""
